@@ -634,7 +634,9 @@ func (self PathNode) marshal(p *thrift.BinaryProtocol, opts *Options) error {
 	if self.IsError() {
 		return self.Node
 	}
-	if len(self.Next) == 0 {
+	// a container whose own bytes were not recorded (NotScanParentNode) and that has no children
+	// is an empty container, not an empty value: let the switch below write its header
+	if len(self.Next) == 0 && !(self.Node.l == 0 && self.Node.t.IsComplex()) {
 		p.Buf = append(p.Buf, self.raw()...)
 		return nil
 	}
